@@ -679,9 +679,12 @@ def lu_factor(matrix_a, b):
     mp, p = matrix_pivot(matrix_a)
     m_l, m_u = lu_decomposition(mp)
 
+    # P A x = P b: the right-hand side follows the row exchanges
+    pb = matrix_multiply(p, b)
+
     # Solve the system of linear equations
     for i in range(dim):
-        bt = [b1[i] for b1 in b]
+        bt = [b1[i] for b1 in pb]
         y = forward_substitution(m_l, bt)
         xt = backward_substitution(m_u, y)
         for j in range(num_x):
